@@ -5,7 +5,9 @@ import props as P
 import monitors as M
 import obsparse
 
-REPO = '/repo'
+# development only: VERIF_REPO points the build at another checkout (a pristine worktree for soak runs while
+# /repo is being patched); runs with it never write the evidence of record
+REPO = os.environ.get('VERIF_REPO', '/repo')
 GUARD = 'kryptonitedao_krp_staking_contracts_verif'
 FORBIDDEN = re.compile(r'\b(Admitted|admit|Axiom|Axioms|Parameter|Parameters|Conjecture|Conjectures|'
                        r'Unset\s+Guard|bypass_check|Admit\s+Obligations|Hypothesis|Hypotheses|Variable|Variables)\b'
@@ -16,7 +18,7 @@ ALLOWED_ASSUMPTIONS = set()   # names of stdlib axioms allowed in Print Assumpti
 class Ctx:
     def __init__(self, root):
         self.root = root
-        self.build = os.path.join(root, 'build')
+        self.build = os.environ.get('VERIF_BUILD') or os.path.join(root, 'build')
         self.coq = os.path.join(root, 'coq')
         self.harness_bin = os.path.join(self.build, 'harness-target', 'release', 'krp-harness')
         self.driver_bin = os.path.join(self.build, 'driver')
@@ -92,6 +94,23 @@ def build_harness(ctx):
     lock = os.path.join(hdir, 'Cargo.lock')
     if not os.path.exists(lock):
         shutil.copy(os.path.join(REPO, 'Cargo.lock'), lock)
+    if REPO != '/repo':
+        # shadow package: same sources, path dependencies rewritten to the other checkout
+        sh = os.path.join(ctx.build, 'harness-pkg')
+        os.makedirs(sh, exist_ok=True)
+        for name in ('src', 'Cargo.lock'):
+            dst = os.path.join(sh, name)
+            if os.path.islink(dst) or os.path.exists(dst):
+                if os.path.islink(dst) or os.path.isfile(dst):
+                    os.unlink(dst)
+                else:
+                    shutil.rmtree(dst)
+            os.symlink(os.path.join(hdir, name), dst)
+        toml = open(os.path.join(hdir, 'Cargo.toml')).read().replace('"/repo/', '"%s/' % REPO.rstrip('/'))
+        cur = open(os.path.join(sh, 'Cargo.toml')).read() if os.path.exists(os.path.join(sh, 'Cargo.toml')) else ''
+        if cur != toml:
+            open(os.path.join(sh, 'Cargo.toml'), 'w').write(toml)
+        hdir = sh
     env = {'CARGO_TARGET_DIR': os.path.join(ctx.build, 'harness-target'),
            'RUSTFLAGS': '--cfg ' + GUARD}
     t = time.time()
@@ -859,7 +878,7 @@ def finish(ctx, pid, tier, seed, t0, spec, au, cov, violations, known_hits):
         'known_findings_reproduced': known_hits,
     }
     # development runs without the Coq audit never overwrite the evidence of record
-    evdir = os.path.join(ctx.build, 'evidence-dev') if os.environ.get('VERIF_SKIP_AUDIT') == '1' else os.path.join(ctx.root, 'evidence')
+    evdir = os.path.join(ctx.build, 'evidence-dev') if (os.environ.get('VERIF_SKIP_AUDIT') == '1' or REPO != '/repo') else os.path.join(ctx.root, 'evidence')
     os.makedirs(evdir, exist_ok=True)
     with open(os.path.join(evdir, pid + '.json'), 'w') as f:
         json.dump(ev, f, indent=1)
